@@ -53,12 +53,14 @@ NParams(d) ==
     [] d.k = "circuit" -> LET RECURSIVE S(_) S(i) == IF i = 0 THEN 0 ELSE S(i - 1) + NParams(d.sub[i]) IN S(Len(d.sub))
     [] OTHER -> NParams(d.sub[1])
 
-\* what identifies a construction: everything but the observed tables; level sets and frozen maps are sets
+\* what identifies a construction: everything but the observed tables.  Frozen-parameter maps are sets (a dict has no
+\* order); control level lists are kept as given (weaker reading: [0,2] and [2,0] are not claimed to be "the same
+\* construction", so either answer of == is accepted for them).
 RECURSIVE Norm(_)
 Norm(d) == [k |-> d.k, name |-> d.name, p |-> IF d.k = "base" /\ d.name # "TABLE" THEN d.cp ELSE <<>>,
             t |-> IF d.k = "base" /\ d.name = "TABLE" THEN d.t ELSE <<>>,
             r |-> d.r, n |-> d.n, cr |-> d.cr,
-            levels |-> [i \in 1..Len(d.levels) |-> ToSet(d.levels[i])], maps |-> d.maps, tag |-> d.tag,
+            levels |-> d.levels, maps |-> d.maps, tag |-> d.tag,
             fz |-> ToSet(d.fz), locs |-> d.locs, sub |-> [i \in 1..Len(d.sub) |-> Norm(d.sub[i])]]
 
 \* ------------------------------------------------------------ clauses
@@ -99,8 +101,8 @@ EqHashVerdict ==
       differ == Rad(C.d1) # Rad(C.d2) \/ ~SameExactly(ObsTable(C.t1), ObsTable(C.t2))
   IN IF same /\ ~(C.eq_ab /\ C.eq_ba) THEN "eq-hash:equal-constructions-compare-unequal"
      ELSE IF C.eq_ab # C.eq_ba THEN "eq-hash:asymmetric"
-     ELSE IF C.eq_ab /\ ~C.hash_eq THEN "eq-hash:equal-gates-hash-differently"
      ELSE IF differ /\ C.eq_ab THEN "eq-hash:different-gates-compare-equal"
+     ELSE IF C.eq_ab /\ ~C.hash_eq THEN "eq-hash:equal-gates-hash-differently"
      ELSE "ok"
 
 \* Qiskit's matrix for the same name (qubit order reversed by the harness), monomial names only
